@@ -40,7 +40,15 @@ def run_property(prop: str, tier: str, replay: str = None) -> int:
             )
         if not rr.obligations:
             raise AnalysisError(f"{rid}: matched zero sites (a rule that matches nothing proves nothing)")
-        results.append(rr)
+        flt = spec.get("filters", {}).get(rid)
+        if flt:
+            kept = [o for o in rr.obligations if any(s in o.construct for s in flt)]
+            if not kept:
+                raise AnalysisError(f"{rid}: no obligation matches the scope {flt} of {prop} (anchor vanished)")
+            rr2 = RuleResult(rr.rule, kept, rr.analysed, rr.notes)
+            results.append(rr2)
+        else:
+            results.append(rr)
     obligations = [o for rr in results for o in rr.obligations]
     only = None
     if replay:
